@@ -275,6 +275,11 @@ def run_op(line, env):
             us = Buffer.new_consecutive(n, fr, ch, s, None, c)
             env['bufs'].extend(us)
             return 'ok u' + ','.join(str(u.bufnum) for u in us)
+        if op == 'bufconsx':
+            n = p.value(); fr = p.value(); ch = p.value(); num = p.value(); c = p.value()
+            us = Buffer.new_consecutive(n, fr, ch, s, num, c)
+            env['bufs'].extend(us)
+            return 'ok u' + ','.join(str(u.bufnum) for u in us)
         if op in ('bfree', 'bzero', 'bclose'):
             u = p.handle()
             getattr(u, {'bfree': 'free', 'bzero': 'zero', 'bclose': 'close'}[op])(p.value())
@@ -315,7 +320,7 @@ def run_op(line, env):
         return f'exc:{type(e).__name__}'
 
 
-BUF_ALLOC_OPS = ('buf', 'bufx', 'bufna', 'bufcons', 'bfree', 'bfreeall')
+BUF_ALLOC_OPS = ('buf', 'bufx', 'bufna', 'bufcons', 'bufconsx', 'bfree', 'bfreeall')
 
 
 class Boom(Exception):
@@ -518,7 +523,9 @@ def run(payload):
     def rec_bundle(target, time, *elements):
         els = [list(e) if isinstance(e, (list, tuple)) else e for e in elements]
         try:
-            build_bundle(0.0, [time, *els])
+            dgram = build_bundle(0.0, [time, *els]).dgram
+            if len(dgram) > 65504:           # NetAddr._MAX_UDP_DGRAM_SIZE: cannot be sent
+                raise OverflowError(len(dgram))
             WIRE.append(('B', time, els))
         except Exception as e:
             WIRE.append(('E', f'{type(e).__name__}', ['<bundle>', *els]))
